@@ -1,0 +1,12 @@
+//go:build verif
+
+package registry
+
+import "github.com/gogpu/naga/ir"
+
+// VerifKey returns the dedup key GetOrCreate computes for (name, inner).
+// Verification hook: lets the external harness compare the key with its model.
+func (r *TypeRegistry) VerifKey(name string, inner ir.TypeInner) string {
+	r.buildKey(name, inner)
+	return string(r.keyBuf)
+}
